@@ -25,6 +25,13 @@ def run(run):
         for i in range(3 if run.depth == "quick" else 12):
             g = G.Gen(random.Random(run.seed * 100 + i), G.Opts(unique=True, classes=1, methods=3, stmts=6, depth=2))
             open(os.path.join(d, "p", "F%d.java" % i), "w").write(g.file("K%d_" % i)[0])
+        # statements with and without their optional parts, side by side: a filter through the optional part keeps the
+        # entities that have it, whatever the others do
+        open(os.path.join(d, "p", "Optional.java"), "w").write(
+            "class Optional {\n" + "".join(
+                "  int r%d(int total, boolean c) {\n    for (;;) { if (c) { return total; } break; }\n    for (int i = 0; i < total; i++) { total = total - 1; }\n"
+                "    assert c;\n    assert c : \"message %d\";\n    if (c) { return total; }\n    return total + %d;\n  }\n  void v%d(boolean c) {\n    if (c) { return; }\n    return;\n  }\n" % (j, j, j, j)
+                for j in range(6)) + "}\n")
         h = C.Harness()
         r = h.call(op="scan", dir=os.path.join(d, "p"), graph="g")
         if r.get("outcome") != "ok":
@@ -41,6 +48,31 @@ def run(run):
         for k in observed:
             if k not in produced:
                 run.broken_obligation("correspondence:kinds", "scanner produced kind %r that factgen does not see in the source" % k)
+        # filters through an optional part
+        opt = [("ReturnStmt", 'x.getReturnStmt().Result.NodeString != "no such text"', lambda n: (n.get("return") or {}).get("result") not in (None, "")),
+               ("ForStmt", 'x.getForStmt().Init.NodeString != "no such text"', lambda n: (n.get("for") or {}).get("init") not in (None, "")),
+               ("ForStmt", 'x.getForStmt().Condition.NodeString != "no such text"', lambda n: (n.get("for") or {}).get("cond") not in (None, "")),
+               ("AssertStmt", 'x.getAssertStmt().Message.NodeString != "no such text"', lambda n: (n.get("assert") or {}).get("msg") not in (None, ""))]
+        for k, cond, has in opt:
+            if k not in by_kind:
+                continue
+            want = sum(1 for n in by_kind[k] if has(n))
+            if want in (0, len(by_kind[k])):
+                continue
+            q = "FROM %s AS x WHERE %s SELECT x" % (k, cond)
+            for rep in range(3):
+                rr = h.call(op="query", graph="g", q=q, output="json")
+                run.count((k, "optional-part", rep))
+                got = None
+                if rr.get("outcome") == "ok":
+                    try:
+                        got = len(json.loads(rr["result"])["result_set"])
+                    except Exception:
+                        got = None
+                if got != want:
+                    run.violation("C19:kind-not-queryable:%s" % k, "%d of the %d %s entities have the optional part, but %r returns %s of them (outcome %s)" %
+                                  (want, len(by_kind[k]), k, q, got, rr.get("outcome")), dict(query=q, got=got, want=want, java="Optional.java in checks/c19.py"))
+                    break
         for k in observed:
             # the alias is an arbitrary identifier: a short one, the kind's own name, another kind's name
             other = "method_declaration" if k != "method_declaration" else "class_declaration"
